@@ -570,6 +570,10 @@ class Function(Value):
         return self.__name
 
     def ReplaceUses(self, uses):
+        # Passes may have exchanged instructions since the uses were last
+        # collected, so collect them again before relying on them
+        self.UpdateUses()
+
         for ref, new in uses.items():
             for instruction in self.__uses[ref]:
                 instruction.ReplaceUses(ref, new)
